@@ -17,7 +17,8 @@ TABLE_TYPES = ["OTU table", "Pathway table", "Function table",
                "Taxon table"]
 
 ID_CLASSES = ['ascii', 'one', 'long', 'punct', 'space', 'slash', 'numeric',
-              'natsort', 'latin1', 'cjk', 'astral', 'mixed']
+              'natsort', 'latin1', 'cjk', 'astral', 'prefix', 'case',
+              'mixed']
 # classes safe for the classic TSV format (no tab/newline/#-start/edge blank)
 VALUE_CLASSES = ['count', 'bigcount', 'dyadic', 'frac', 'neg', 'tiny',
                  'manydigits', 'huge', 'subnormal', 'mixed']
@@ -76,6 +77,25 @@ def gen_ids(r, n, cls, prefix):
         return _uniq(r, n, lambda i: '%s%s' % (
             r.choice(['a', 'b', prefix]),
             r.choice(['1', '2', '10', '1.5', '02', '20', '3b', ''])))
+    if cls == 'prefix':
+        # ids that are prefixes / suffixes / substrings of one another
+        stem = prefix + r.choice(['a', 'ab', 'x1'])
+        pool = [stem, stem + 'a', stem + 'ab', stem + '1', stem + '10',
+                stem + '100', stem + '.', stem + '.1', stem + '_', 'z' + stem,
+                stem + stem, stem[:-1] if len(stem) > 1 else stem + 'q']
+        r.shuffle(pool)
+        return _uniq(r, n, lambda i: pool[i] if i < len(pool)
+                     else stem + str(r.randrange(10 ** 6)))
+    if cls == 'case':
+        # ids that differ only in letter case
+        base = prefix + r.choice(['abc', 'otu', 'Sample'])
+        pool = list(dict.fromkeys([base.lower(), base.upper(),
+                                   base.capitalize(), base.swapcase(),
+                                   base.title(), base[0] + base[1:].upper(),
+                                   base.lower()[:-1] + base[-1].upper()]))
+        r.shuffle(pool)
+        return _uniq(r, n, lambda i: pool[i] if i < len(pool)
+                     else base + str(r.randrange(10 ** 6)))
     if cls == 'latin1':
         return _uniq(r, n, lambda i: prefix + ''.join(
             r.choice(_LATIN) for _ in range(r.randint(1, 4))) + str(i))
@@ -382,7 +402,8 @@ def build(biom, spec, route='dense', **kw):
 LAYOUTS = ['as-built', 'touch-sample', 'touch-obs', 'touch-both',
            'sort-unsort-samp', 'sort-unsort-obs', 'csr-stored-zeros',
            'csc-stored-zeros', 'csr-unsorted', 'transposed-twice',
-           'filtered-keep-all', 'after-nnz', 'coo-input']
+           'filtered-keep-all', 'after-nnz', 'coo-input', 'deepcopied',
+           'pickled', 'narrow-dtype-input', 'after-queries']
 
 
 def layout_state(t):
@@ -427,7 +448,54 @@ def apply_layout(biom, spec, recipe, r):
                           copy.deepcopy(spec.obs_md),
                           copy.deepcopy(spec.samp_md), type=spec.type,
                           table_id=spec.table_id)
+    if recipe == 'narrow-dtype-input':
+        # the same numbers handed over in a narrower element type, when they
+        # fit it exactly (int32 / int64 / float32 / bool)
+        D = spec.D
+        cands = []
+        if np.all(D == np.floor(D)) and np.all(np.abs(D) < 2 ** 31):
+            cands += [np.int32, np.int64]
+        if np.all(D.astype(np.float32).astype(np.float64) == D):
+            cands.append(np.float32)
+        if np.all((D == 0) | (D == 1)):
+            cands.append(np.bool_)
+        if cands and D.size:
+            dt = r.choice(cands)
+            A = D.astype(dt)
+            data = r.choice([lambda: A, lambda: sp.csr_matrix(A),
+                             lambda: sp.csc_matrix(A)])()
+            return biom.Table(data, list(spec.obs_ids), list(spec.samp_ids),
+                              copy.deepcopy(spec.obs_md),
+                              copy.deepcopy(spec.samp_md), type=spec.type,
+                              table_id=spec.table_id)
+        return build(biom, spec, 'dense')
     t = build(biom, spec, r.choice(['dense', 'csr', 'csc']))
+    if recipe == 'deepcopied':
+        t = copy.deepcopy(t)
+    elif recipe == 'pickled':
+        import pickle
+        if spec.obs_md is None and spec.samp_md is None:
+            t = pickle.loads(pickle.dumps(t))
+        else:       # tables with metadata cannot be pickled (library limit)
+            t = copy.deepcopy(t)
+    elif recipe == 'after-queries':
+        # read-only questions asked before the operation under test
+        if n and m:
+            t.exists(spec.obs_ids[0], 'observation')
+            t.index(spec.samp_ids[-1], 'sample')
+            t.get_value_by_ids(spec.obs_ids[-1], spec.samp_ids[0])
+            t.sum('sample')
+            t.is_empty()
+            str(t)
+            t.metadata(axis='observation')
+            t.length('sample')
+            t.get_table_density()
+            t.nonzero_counts('observation')
+            list(t.iter_pairwise(axis='sample')) if m <= 4 else None
+            if np.all(np.any(spec.D != 0, axis=0)):  # no empty vector
+                t.min('sample')
+            if np.all(np.any(spec.D != 0, axis=1)):
+                t.max('observation')
     if recipe == 'touch-sample':
         if m:
             t.data(spec.samp_ids[0], 'sample')
